@@ -3,6 +3,7 @@ package checks
 import (
 	"bytes"
 	"fmt"
+	"io/fs"
 	"sort"
 	"strings"
 
@@ -197,6 +198,23 @@ var c11CallForms = []struct{ Name, Tpl string }{
 }
 
 var c11Tokens = []string{"<", ">", "</", "{{", "}}", "\"", "=", "<template", " include=", " v-for=\"", " v-if=\"", "<slot>", "---\n", "\x00", "a", "<!--", " v-html=\"", "|", "(", " in ", "'", "\\", "'a\\"}
+
+// openLimitFS refuses a file once it has been opened more than limit times.
+type openLimitFS struct {
+	fs.FS
+	limit   int
+	opens   map[string]int
+	refused string
+}
+
+func (l *openLimitFS) Open(name string) (fs.File, error) {
+	l.opens[name]++
+	if l.opens[name] > l.limit {
+		l.refused = name
+		return nil, fmt.Errorf("open %s: opened too often", name)
+	}
+	return l.FS.Open(name)
+}
 
 func (c *c11Case) Run(ctx *core.Ctx) {
 	ctx.NonTrivial()
@@ -462,6 +480,45 @@ func (c *c11Case) Run(ctx *core.Ctx) {
 		_ = t.Fill(map[string]any{"n": 2}).RenderString(bg, &buf, `<i>{{ n }}</i><x-b></x-b>`)
 		_ = t.Load("page.vuego").Fill(map[string]any{"n": 2}).Render(bg, &buf)
 		_ = t.New().RenderFile(bg, &buf, "missing.vuego")
+	case "layoutcycle":
+		// layout cycles whose layouts use the content 1..3 times (the content multiplies on every
+		// lap: a cycle that is only stopped by the depth limit of 100 never gets there). The file
+		// system refuses a file that is opened more than 60 times during one render: the engine
+		// must have found the cycle itself long before.
+		uses := strings.Repeat(`<div v-html="content"></div>`, len(c.Val))
+		if c.Val == "mixed" {
+			uses = `<div v-html="content"></div>{{ content }}`
+		}
+		files := Files{}
+		switch c.Pos {
+		case "self": // the page names itself (a name is looked up next to the naming file first)
+			files["page.vuego"] = "---\nlayout: page\n---\n<p>x</p>" + uses
+		case "pair": // page -> layouts/a -> page
+			files["page.vuego"] = "---\nlayout: a\n---\n<p>x</p>" + uses
+			files["layouts/a.vuego"] = "---\nlayout: ../page\n---\n<section>" + uses + "</section>"
+		case "layself": // a layout that names itself
+			files["page.vuego"] = "---\nlayout: a\n---\n<p>x</p>"
+			files["layouts/a.vuego"] = "---\nlayout: a\n---\n<section>" + uses + "</section>"
+		case "laypair":
+			files["page.vuego"] = "---\nlayout: a\n---\n<p>x</p>"
+			files["layouts/a.vuego"] = "---\nlayout: b\n---\n<section>" + uses + "</section>"
+			files["layouts/b.vuego"] = "---\nlayout: a\n---\n<article>" + uses + "</article>"
+		case "asapage": // a layout with a cycle of its own rendered as the page
+			files["layouts/a.vuego"] = "---\nlayout: a\n---\n<section>" + uses + "</section>"
+		}
+		page := "page.vuego"
+		if c.Pos == "asapage" {
+			page = "layouts/a.vuego"
+		}
+		lim := &openLimitFS{FS: files.FS(), limit: 60, opens: map[string]int{}}
+		ctx.Eval(1)
+		err := vuego.NewFS(lim).Load(page).Render(bg, &buf)
+		ctx.Outcome(fmt.Sprint(err != nil, lim.refused))
+		if lim.refused != "" {
+			ctx.Violation("unbounded-work", "layoutcycle/"+c.Pos, "content-used-"+c.Val, fmt.Sprintf("%s: %s was opened more than 60 times during one render (err %v)", files, lim.refused, err))
+		} else if err == nil {
+			ctx.Violation("no-error", "layoutcycle/"+c.Pos, "content-used-"+c.Val, fmt.Sprintf("%s: a layout cycle rendered without error", files))
+		}
 	case "depth":
 		// N elements nested in one another (tables of precomputed indentation, stacks of open
 		// elements and recursion depth all have their limits somewhere)
@@ -536,11 +593,11 @@ func init() {
 		ID:        "C11",
 		Level:     "exploration",
 		CPUBudget: 15,
-		Rule: fmt.Sprintf("(1) %d directive positions (+ the value as root data) x %d Go values of every kind (scalars, NaN, nil and typed nils, maps with non-string keys, structs with unexported/embedded fields, func, chan, self-referential pointer, 1000-deep nesting), each through RenderString and Load+Render; ", len(c11Positions), len(wrongValues)) +
+		Rule: fmt.Sprintf("(1) %d directive positions (+ the value as root data) x %d Go values of every kind (scalars, NaN, nil and typed nils, maps with non-string keys, structs with unexported/embedded fields, func, chan, self-referential pointer, 1000-deep nesting), each through RenderString and Load+Render; a value of a pointer type that points to itself (type P *P) in the 18 positions that resolve it as a path; ", len(c11Positions), len(wrongValues)) +
 			fmt.Sprintf("(1b) %d registered functions of every shape (fixed, variadic, context-taking, with error / comma-ok / three / no results, array, slice, map, pointer, struct, func and interface parameters, nil entries, values that are not functions) x %d call forms (call with 0..3 arguments, pipes with and without arguments, v-if, :attr, v-for) x the same values as argument; ", len(c11Funcs), len(c11CallForms)) +
 			"(1d) engines constructed with every ordered selection of <=3 options out of {WithFS, WithFS(nil), WithComponents, WithLessProcessor, WithFuncs, WithFuncs(nil), WithProcessor} through New, NewFS(fs) and NewFS(nil), followed by a string render, a file render and a render of a missing file; " +
 			"(1c) templates of 31 nesting depths from 1 to 600 (around 16, 32, 64, 128, 256, 512) as nested divs, divs with an inline sibling per level, spans, lists and a self-including component, through 4 entry points; " +
-			"(2) all include graphs over 3 files where each file includes <=2 targets in 6 modes (direct, v-if true/false, v-for, as plain slot content, as v-slot content), the includes wrapped in an element, standing bare as the first nodes of the file, or inside a <template> root: must return, with an error iff a cycle is reachable; (3) every token string up to the bound over a 23-token alphabet as template source (string / file / Vue.Render) and as front-matter; (4) @import graphs behind the LESS processor - chains, cycles, files importing themselves once and twice, a missing file, diamonds - over 1..150 files called *.less and *.css: a cycle ends in an error, everything ends. " +
+			"(2) all include graphs over 3 files where each file includes <=2 targets in 6 modes (direct, v-if true/false, v-for, as plain slot content, as v-slot content), the includes wrapped in an element, standing bare as the first nodes of the file, or inside a <template> root: must return, with an error iff a cycle is reachable; (3) every token string up to the bound over a 23-token alphabet as template source (string / file / Vue.Render) and as front-matter; (4) @import graphs behind the LESS processor - chains, cycles, files importing themselves once and twice, a missing file, diamonds - over 1..150 files called *.less and *.css: a cycle ends in an error, everything ends; (5) layout cycles of 5 shapes (the page naming itself, through a layout back to the page, a layout naming itself, two layouts, a cyclic layout rendered as the page) whose members use the content once, twice, three times: an error, and no file opened more than 60 times. " +
 			"oracle: the call returns - no panic (recovered per case), no fatal error or stack overflow (64 MiB stack cap, worker subprocess), no hang (CPU budget per case). non-trivial = all",
 		Bounds:      map[string]string{"quick": "graphs with <=1 edge per file in all modes plus 2 edges in {direct, vfor}; token strings of length <=3", "thorough": "graphs with <=1 edge per file in all 6 modes plus 2 edges in {direct, v-if, v-for, slot content}; token strings of length <=4"},
 		Assumptions: []string{"panics raised by the body of a user-registered function are the user's: the registered functions here never panic themselves", "cyclic maps/slices (not JSON-like) are not generated"},
@@ -551,12 +608,22 @@ func init() {
 					emit(&c11Case{Part: "types", Pos: p.Name, Val: w.Name})
 				}
 			}
+			// a value of a pointer type that points to itself, in the positions that do not hand it to
+			// the expression library (whose own pointer-following is not the engine's)
+			for _, pos := range []string{"mustache", "upper", "len", "default", "json", "int", "string-title", "trim-escape", "type", "vfor", "vfor-ix", "vfor-nested", "bind", "bind-class", "bind-style", "static+bound-style", "vhtml", "root"} {
+				emit(&c11Case{Part: "types", Pos: pos, Val: "selfptrtype"})
+			}
 			for _, shape := range []string{"chain", "cycle", "self", "missing", "diamond", "selftwice", "chain-css", "cycle-css", "self-css", "selftwice-css"} {
 				for _, n := range []int{1, 2, 3, 5, 20, 99, 100, 101, 150} {
 					if shape == "diamond" && n > 20 {
 						continue // (the LESS library re-reads shared imports: 2^n work)
 					}
 					emit(&c11Case{Part: "less", Pos: shape, Val: fmt.Sprint(n)})
+				}
+			}
+			for _, shape := range []string{"self", "pair", "layself", "laypair", "asapage"} {
+				for _, uses := range []string{"1", "11", "111", "mixed"} {
+					emit(&c11Case{Part: "layoutcycle", Pos: shape, Val: uses})
 				}
 			}
 			for _, st := range c11StyleTexts {
